@@ -86,6 +86,9 @@ def family(tier):
     v1_sub = lambda T: make_v1(T, "abc", [("a", "b"), ("a", "b", "c")])          # sub-chord + superset; (a c), (b c) undefined
     v1_ovl = lambda T: make_v1(T, "ac", [("a", "b"), ("b", "c")])                # overlapping, (b) and (a b c) undefined
     v2_first = lambda T: make_v2([(("a", "b"), T, "first", [], None)], "ab")
+    # a first-release chord, a key without chords and four queued events: the chord's presses are processed together with
+    # a tap of the foreign key (the foreign-release finding repaired by 6fd250f; model mutant chv2_foreign_release)
+    v2_firstx = lambda T: make_v2([(("a", "b"), T, "first", [], None)], "abc")
     v2_uni = lambda T: make_v2([(("a", "b"), T, "all", [], "+r")], "ab")
     v2_pair = lambda T: make_v2([(("a", "b"), T, "all", [], None)], "abc")        # c: a key without chords
     v2_sub = lambda T: make_v2([(("a", "b"), T, "all", [], None), (("a", "b", "c"), T, "first", [], None)], "abc")
@@ -96,6 +99,7 @@ def family(tier):
             ("v1_plain_T2", v1_plain(2), {"qmax": 2}),
             ("v1_sub_T2", v1_sub(2), {"qmax": 2, "depth": 16}),
             ("v2_first_T2", v2_first(2), {"qmax": 2}),
+            ("v2_firstx_T2", v2_firstx(2), {"qmax": 4, "depth": 10}),
             ("v2_uni_T2", v2_uni(2), {"qmax": 2}),
             ("v2_pair_T2", v2_pair(2), {"qmax": 2, "depth": 22}),
             ("v2_sub_T2", v2_sub(2), {"qmax": 2, "depth": 22}),
@@ -111,6 +115,7 @@ def family(tier):
         ("v1_red5_T3", v1_plain(3, 5), {"qmax": 2, "depth": 40}),
         ("v2_first_T2", v2_first(2), {"qmax": 3}),
         ("v2_first_T3", v2_first(3), {"qmax": 2}),
+        ("v2_firstx_T2", v2_firstx(2), {"qmax": 4, "depth": 14}),
         ("v2_uni_T2", v2_uni(2), {"qmax": 2}),
         ("v2_uni_T3", v2_uni(3), {"qmax": 2}),
         ("v2_pair_T2", v2_pair(2), {"qmax": 2, "depth": 30}),
